@@ -45,10 +45,12 @@ LEVEL = "fault_enumeration"
 RULE = (
     "(ii, exhaustive in both tiers) case = (template kind, uri depth, previous-module state, writer absent|recording, "
     "k, mode, prefix fraction): states nodir | absent | older | magic with bytecode writing off, and pyc-older | "
-    "pyc-orphan with bytecode writing on (valid __pycache__ entry of the previous module, compiled when that module "
-    "had the mtime of the current wall-clock second; the module then aged below the source mtime, or deleted; the new "
-    "module has the same size, so a rewrite inside that second yields a file for which the old bytecode is still "
-    "valid); k ranges over EVERY file-system call index of the fault-free run of that state (faultfs log; 10-19 calls "
+    "pyc-orphan | pyc-magic with bytecode writing on (pyc-older/orphan: valid __pycache__ entry of the previous module, "
+    "compiled when that module had the mtime of the current wall-clock second; the module then aged below the source "
+    "mtime, or deleted; pyc-magic: a module with another, equally wide magic number and the mtime of the current "
+    "second, not older than the source, whose bytecode is written by mako's own load before the rewrite on the "
+    "magic-number path; in all three the new module has the same size, so a rewrite inside that second yields a file "
+    "for which the old bytecode is still valid); k ranges over EVERY file-system call index of the fault-free run of that state (faultfs log; 10-19 calls "
     "without a writer, the two os.remove of the bytecode included), mode over fail_before, fail_after, die_before, "
     "die_after and, for write-like calls, fail_mid/die_mid with prefix 1 byte | half | all-but-one (pyc states in "
     "quick: half only); non-trivial = the hit call lies between the first bytecode removal / creation of the temp file "
@@ -59,9 +61,11 @@ RULE = (
     "pre-existing or not; non-trivial = the history has >=2 constructions and a construction that follows an "
     "equal/older-mtime source modification or a magic-number replacement; distinct by history fingerprint. "
     "(i-pyc) the same histories and oracle with bytecode writing on during every construction, drawn with a bias to "
-    "'rewrite, equal-length content change, rewrite'; each history is started with >=0.4 s left in the wall-clock "
+    "'rewrite, equal-length content change, rewrite' and with an extra op 'replace the module by the real image of the "
+    "current source with another, equally wide magic number, stamped with the current wall-clock second'; each history is started with >=0.4 s left in the wall-clock "
     "second; non-trivial = the history contains a rewrite whose new module file has the whole-second mtime and the "
-    "size of the __pycache__ entry (as modelled by the harness) but other content. "
+    "size of the __pycache__ entry (as modelled by the harness) but other content, or a magic-number rewrite of a "
+    "module of the same second and size (labels pyc:hazard:*). "
     "(iii) case = (n in 2..8, state, template kind incl. a 300 kB one, stagger, depth, repetition); every race is "
     "counted non-trivial (>=2 processes, rewrite due) and distinct by (n, state, kind, stagger, depth, repetition index)."
 )
@@ -88,7 +92,7 @@ T0 = 1_000_000_000  # simulated clock origin (whole seconds)
 XVAL = "X"
 KINDS = ("plain", "uni", "def", "ctl")
 STATES = ("nodir", "absent", "older", "magic")
-PYC_STATES = ("pyc-older", "pyc-orphan")  # bytecode-enabled crash states, see Scene.reset
+PYC_STATES = ("pyc-older", "pyc-orphan", "pyc-magic")  # bytecode-enabled crash states, see Scene.reset
 BIG_LINES = 9000
 CHILD_TIMEOUT_S = 300
 
@@ -423,13 +427,36 @@ def wait_for_room_in_second(limit):
         time.sleep(1.0 - frac + 0.002)
 
 
+def mark_image(image, ver):
+    """Equal-length edit of a generated module so that it renders 'F<ver>:' where the template says 'v<ver>:'."""
+    out = image.replace(b"v%d:" % ver, b"F%d:" % ver)
+    if out == image:
+        raise HarnessError("no version marker in the generated module")
+    return out
+
+
+def marked_output(kind, ver):
+    return expected_output(kind, ver).replace("v%d:" % ver, "F%d:" % ver)
+
+
+def same_width_magic():
+    """Another _magic_number with the same number of digits (keeps the module size)."""
+    from mako import codegen
+
+    m = codegen.MAGIC_NUMBER
+    return m + 1 if len(str(m + 1)) == len(str(m)) else m - 1
+
+
 def stale_version(res, kind, ver):
-    """The version < ver whose expected output was rendered, or None."""
+    """What was rendered instead of version `ver`: an older version's output (-> its number) or the output of a
+    marked other-magic module ('F<v>', see mark_image); None if neither."""
     if res["outcome"] != "ok" or res["render_exc"] is not None:
         return None
-    for v in range(ver - 1, -1, -1):
-        if res["render"] == expected_output(kind, v):
+    for v in range(ver, -1, -1):
+        if v < ver and res["render"] == expected_output(kind, v):
             return v
+        if res["render"] == marked_output(kind, v):
+            return "F%d" % v
     return None
 
 
@@ -456,7 +483,10 @@ def history_strategy(pyc=False):
     # one_of() does not weight repeated branches; draw the op name from a weighted list first
     weights = ["src"] * 4 + ["del"] + ["magic"] + ["new"] * 6
     if pyc:
-        weights = ["src"] * 5 + ["del"] * 2 + ["magic"] + ["new"] * 7
+        # "magicnow": the replacement is the real image of the current source with an equally wide other magic number,
+        # stamped with the current wall-clock second (op = magic, rel, delta, value (ignored), True)
+        by_name["magicnow"] = st.tuples(st.just("magic"), st.just("equal"), st.just(1), st.just(0), st.just(True))
+        weights = ["src"] * 5 + ["del"] * 2 + ["magic"] + ["magicnow"] * 3 + ["new"] * 8
     op = st.sampled_from(weights).flatmap(lambda k: by_name[k])
     return st.fixed_dictionaries({
         "part": st.just("i"),
@@ -520,8 +550,29 @@ def check_history(case, ev=None):
                 mod = None
                 pending_interesting = False
                 labels.append("i:del")
+            elif name == "magic" and len(op) > 4 and op[4]:
+                # bytecode-enabled histories: what another generator version left at the module path in THIS
+                # wall-clock second, of exactly the size the regenerated module will have (real image of the current
+                # source from a scratch module directory; other magic number of equal width; 'v<n>:' -> 'F<n>:' so
+                # that running it is visible).  Old bytecode of ours is removed; the bytecode that matters is written
+                # by mako's own load of this module during the next construction.
+                scratch = os.path.join(root, "scratch")
+                fx = construct(src, scratch, uri, 1_300_000_000 + i, False)
+                img = read_state(module_path(scratch, uri))
+                shutil.rmtree(scratch, ignore_errors=True)
+                if fx["outcome"] != "ok" or img is None:
+                    bad(i, "fault-free construction into a scratch module directory failed: " + describe_res(fx),
+                        "i:construct-raised")
+                data = mark_image(swap_magic(img[0], same_width_magic()), ver)
+                m = int(time.time())
+                write_file(mpath, data, m)
+                rm_pyc(mpath)
+                pyc_entry = None
+                mod = {"bytes": data, "mtime": m, "magic_ok": False, "gen_from": "foreign", "now": True}
+                labels.append("i:magic:now")
+                pending_interesting = True
             elif name == "magic":
-                _, rel, delta, magic = op
+                _, rel, delta, magic = op[:4]
                 m = src_mtime + (delta if rel == "newer" else -delta if rel == "older" else 0)
                 if mod is not None and mod["magic_ok"]:
                     data = swap_magic(mod["bytes"], magic)
@@ -559,7 +610,14 @@ def check_history(case, ev=None):
                     now_entry = (after[1] // 10 ** 9, len(after[0]), sha(after[0]))
                     hazard = bool(due and pyc_entry and pyc_entry[:2] == now_entry[:2] and pyc_entry[2] != now_entry[2])
                     pyc_entry = now_entry  # the load of this construction (re)writes the entry for what it found
-                    if hazard:
+                    magic_hazard = bool(due and why == ["magic"] and (mod["mtime"], len(mod["bytes"])) == now_entry[:2])
+                    if magic_hazard:
+                        # mako itself loaded the other-magic module (bytecode written for (second, size)) and then
+                        # replaced it by a file with the same second and size
+                        hazards += 1
+                        hazard = True
+                        labels.append("pyc:hazard:magic-same-second-equal-size")
+                    elif hazard:
                         hazards += 1
                         labels.append("pyc:hazard:same-second-equal-size:" + "+".join(why))
                     elif due:
@@ -594,7 +652,7 @@ def check_history(case, ev=None):
                         sv = stale_version(res, kind, ver) if pyc else None
                         bad(i, "after a rewrite (%s) expected render %r, %s%s" % (
                             "+".join(why), expected_output(kind, ver)[:80], describe_res(res),
-                            "" if sv is None else " = the output of source version %d: stale bytecode from __pycache__ "
+                            "" if sv is None else " = the output of source version %s (F<n> = the replaced other-magic module): stale bytecode from __pycache__ "
                             "(new module has the whole-second mtime and size of the replaced one: %s)" % (sv, hazard)),
                             "i:render-after-rewrite" + (":stale-bytecode" if sv is not None else ""))
                     m = src_mtime + adv
@@ -674,6 +732,9 @@ class Scene:
                               "fault-free construction of the previous module failed: " + describe_res(res),
                               "ii:fault-free-run-wrong")
             self.old = swap_magic(st[0], 9) if state == "magic" else st[0]
+            if state == "pyc-magic":
+                # same size as the module regenerated from the next source version, visibly different when run
+                self.old = mark_image(swap_magic(st[0], same_width_magic()), 0)
         self.reset()
 
     def reset(self, moddir=None):
@@ -690,6 +751,12 @@ class Scene:
             wait_for_room_in_second(0.55)
             w = self.w = int(time.time())
             write_file(mpath, self.old, w)
+            if self.state == "pyc-magic":
+                # pyc-magic: the module in place has another magic number, the mtime of the current second, is not
+                # older than the source and has no bytecode yet: mako's own load of it writes the bytecode, the
+                # rewrite on the magic-number path then produces a file of the same second and size
+                write_file(self.src, source_text(self.kind, 1).encode("utf-8"), w - 10)
+                return
             py_compile.compile(mpath, cfile=pyc_path(mpath), doraise=True,
                                invalidation_mode=py_compile.PycInvalidationMode.TIMESTAMP)
             if self.state == "pyc-older":
